@@ -264,7 +264,7 @@ def _large_case(case):
     vs = []
     n = shape[0] * shape[1]
     i = torch.arange(n, dtype=torch.int64)
-    t = ((i * 2654435761 + (i >> 7)) % (1 << bits)).to(torch.uint8).reshape(shape)
+    t = ((((i * 2654435761) >> 13) + (i >> 7) + (i >> 17)) % (1 << bits)).to(torch.uint8).reshape(shape)  # not periodic in the flat index
     held = []
     for rep in range(2):  # two tensors of the same shape, results held and compared afterwards (shared-buffer reuse)
         tt = (t + rep) % (1 << bits)
